@@ -275,9 +275,27 @@ def run(ctx):
         from strengths.units import convert_value
         raw = np.array(vals, dtype=float)
         rb = raw.tobytes()
-        convert_value(raw, UnitsSystem(*U), tV, UnitsDimensions(*d))
+        cv_pos = convert_value(raw, UnitsSystem(*U), tV, UnitsDimensions(*d))
         if raw.tobytes() != rb:
             ctx.violation("purity:ndarray-modified", "convert_value modified the array it was given", case, impl=[float(v) for v in raw])
+        # the documented function, called positionally and by its documented parameter names (in shuffled order), on a
+        # scalar and on an array: every calling convention must give exact SI scaling from su_src to su_dst
+        kw = [("value", vals[0]), ("su_src", UnitsSystem(*U)), ("su_dst", UnitsSystem(*V)), ("sdim", UnitsDimensions(*d))]
+        rng.shuffle(kw)
+        ctx.count("convert_value_keyword_calls")
+        try:
+            cv_kw = float(convert_value(**dict(kw)))
+            cv_mixed = [float(v) for v in convert_value(np.array(vals, dtype=float), UnitsSystem(*U), sdim=UnitsDimensions(*d), su_dst=UnitsSystem(*V))]
+        except Exception as ex:  # noqa
+            cv_kw, cv_mixed = "error:" + type(ex).__name__, []
+        cv_pos = [float(v) for v in cv_pos]
+        if isinstance(cv_kw, str) or not close(cv_kw, frac(vals[0]) * f, rel=TOL) \
+                or len(cv_mixed) != len(vals) or not all(close(g, frac(v) * f, rel=TOL) for g, v in zip(cv_mixed, vals)) \
+                or not all(close(g, frac(v) * f, rel=TOL) for g, v in zip(cv_pos, vals)):
+            ctx.violation("convert_value:calling-convention", "convert_value(value, su_src, su_dst, sdim) called positionally / by parameter "
+                          "name does not scale from su_src to su_dst", case,
+                          impl={"positional": cv_pos, "keyword_scalar": cv_kw, "mixed_array": cv_mixed, "keyword_order": [k for k, _ in kw]},
+                          expected={"factor": rstr(f)})
         # (b) the SAME target object, edited through its setters between two conversions
         x = UnitValue(vals[0], mk_units(U, d))
         tgt = UnitsSystem(*V)
@@ -391,6 +409,25 @@ def replay(ctx, rec):
             out.update(impl={"units": str(u), "dim": [u.dim.space, u.dim.time, u.dim.quantity]}, expected=rec.get("expected"))
             exp = rec.get("expected") or {}
             ok = list(exp.get("dim", [])) == out["impl"]["dim"]
+        except Exception as ex:  # noqa
+            out.update(impl=repr(ex))
+            ok = False
+    elif "U" in case and "vals" in case:
+        # purity / re-use / calling-convention sequences: positional and keyword calls of convert_value, and a repeated
+        # array conversion, against exact SI scaling
+        import numpy as np
+        from strengths.units import convert_value
+        U, V, d, vals = case["U"], case["V"], tuple(case["dim"]), case["vals"]
+        f = si_factor(U, d) / si_factor(V, d)
+        try:
+            pos = [float(v) for v in convert_value(np.array(vals, dtype=float), UnitsSystem(*U), UnitsSystem(*V), UnitsDimensions(*d))]
+            kw = float(convert_value(sdim=UnitsDimensions(*d), su_dst=UnitsSystem(*V), su_src=UnitsSystem(*U), value=vals[0]))
+            arr = UnitArray(list(vals), mk_units(U, d))
+            r1 = [float(v) for v in arr.convert(UnitsSystem(*V)).value]
+            r2 = [float(v) for v in arr.convert(UnitsSystem(*V)).value]
+            out.update(positional=pos, keyword=kw, first=r1, second=r2, factor=float(f))
+            ok = close(kw, frac(vals[0]) * f, rel=1e-12) and r1 == r2 and \
+                all(close(g, frac(v) * f, rel=1e-12) for g, v in zip(pos, vals)) and all(close(g, frac(v) * f, rel=1e-12) for g, v in zip(r2, vals))
         except Exception as ex:  # noqa
             out.update(impl=repr(ex))
             ok = False
